@@ -48,6 +48,15 @@ Definition chk_readonly : P (list Z) :=
   kind <- pz ;; n <- pz ;; mism <- pz ;;
   ret (verdict (mism =? 0) (mism =? 0) [mism]).
 
+(** 1104: update phase: a fixed set of documents, one of them re-added (replaced by an equal version of
+    itself) over and over by a writer while readers search: documents present in the index (standing set
+    size), searches done, searches that missed a document of the standing set (every one of them was
+    added before every search began and is never removed), panics *)
+Definition chk_update_visible : P (list Z) :=
+  kind <- pz ;; ndocs <- pz ;; searches <- pz ;; missed <- pz ;; panics <- pz ;;
+  let ok := (missed =? 0) && (panics =? 0) in
+  ret (verdict ok ok [missed; panics]).
+
 (** 1103: contended phase: kind, ids, goroutines, stuck (a round of same-id operations did not come back
     within the watchdog's time), panics *)
 Definition chk_contended : P (list Z) :=
